@@ -113,4 +113,46 @@ REG.update({
         "assumptions": ["only the blake3 engine is exercised: progpow/kawpow DAG hashing and the AuxPoW (SHA/Scrypt donor coinbase, merkle branch, template signature) clauses are NOT decided by this check",
                         "difficulty boundary values 0, 1, 2^256 are not generated"],
     },
+    "C19": {
+        "level": "exploration",
+        "tests": [
+            {"pkg": "./poolsim", "run": "TestC19", "quick": 1600, "thorough": 160000, "chunk": 100, "race": True},
+            {"pkg": "./poolsim", "run": "TestC19Seq", "quick": 800, "thorough": 40000, "chunk": 100},
+        ],
+        "rule": ("one evaluation = one rapid tape: pool configuration (limits 1..4, PriceBump 10, Lifetime 10 s, balances, gas limit, base fee, journal, NoLocals), a workload of 1..5 rounds of <=3 ops for each of 2..4 client goroutines "
+                 "(add-local / add-remote / add-remotes / add-locals / set-gas-price / head(+1..2 blocks from pool pending or foreign txs, balance drain/top-up, gas-limit/base-fee change) / reorg(depth 1..2, keep none/half/all) / fire(6 tickers) / advance-clock / evict / reads / Qi add/remove) "
+                 "over 4 accounts x nonces 0..15 x 10 prices, and the schedule: at every lock acquisition, channel operation, select, go statement and map range of the AST-rewritten tx_pool.go exactly one parked goroutine is released, chosen by tape[i] mod |runnable|; tickers fire only when the tape says so. "
+                 "Oracles at quiescent points (no reset pending): pending nonce-contiguous from state nonce and affordable per tx, pending and queue disjoint, all == lists == price index, limits, replacement only with price bump, no panic, deadlock decided by the scheduler; "
+                 "TestC19Seq additionally compares a single-client history with a sequential reference pool. non-trivial = >=4 executed ops of >=3 kinds with >=1 forced preemption; distinct = distinct trace digest."),
+        "expect_probes": ["replacement_accepted", "replacement_rejected", "queue_truncated_or_evicted", "pending_truncated_or_evicted", "pending_demoted", "queued_promoted", "tx_resurrected", "lock_contended", "pool_full",
+                          "forced_preemption", "tick_reorg", "clock_jump", "select_choice", "map_order_permuted", "price_change"],
+        "components": {"real": ["core.TxPool (tx_pool.go AST-rewritten at build time from /repo's working tree: yields, TryLock loops, named goroutines, scheduler-owned tickers/clock/select/map order)", "tx_list", "tx_noncer", "tx_journal (real files)",
+                                "senders/fees LRU", "state.StateDB on memorydb", "ECDSA Quai txs", "Schnorr Qi txs + rawdb UTXOs"],
+                       "stub": ["blockChain (17-method stub: block tree, head feed)", "tickers/clock (scheduler)", "senderCacher disabled", "sharing clients off"]},
+        "assumptions": ["affordability per transaction (the pool's own Filter rule), not cumulative", "replacement threshold = floor(old*(100+bump)/100)", "AccountQueue limit demanded only after a reset-driven promotion pass",
+                        "priced.stales >= stale entries (locals over-count by design)", "replacement not judged for batches that may cross the pool-full boundary", "Stop concurrent with adds is outside the quantifier",
+                        "schedules are sampled, not enumerated; a race-build violation replays with the race binary and its rapid seed, not through vcheck replay"],
+    },
+    "C04": {
+        "level": "exploration",
+        "tests": [{"pkg": "./chainsim", "run": "TestC04", "quick": 400, "thorough": 30000, "chunk": 25}],
+        "rule": S5_RULE + ("Oracle over the recorded history (evaluated on the canonical line after reorgs, every 6th head change and at the end): a FIFO model of the destination queue fed by what the dominant chain delivered with each coincident block "
+                 "(rawdb inbound-ETX records) - every executed inbound ETX must be the next queue item; every delivered ETX corresponds to exactly one ETX emitted earlier on the same canonical chain (key = originating tx hash + index), is delivered once, "
+                 "and is identical to the emitted one except for the value of conversions; every ETX followed by >=3 prime blocks and 3 more zone blocks has been executed. ETX kinds exercised: coinbase (Quai and Qi), Quai->Qi conversion."),
+        "expect_probes": ["reorg"],
+        "components": S5_COMPONENTS,
+        "assumptions": ["single slice (expansion 0): all ETXs are zone 0-0 -> prime -> zone 0-0; cross-zone delivery, region-level coincidence and delivery to 'another zone' are NOT exercised",
+                        "byzantine destination blocks with permuted/duplicated/unknown inbound ETXs are covered only through the C07 body-mutation rows (drop/swap/duplicate a transaction)",
+                        "message loss/duplication between nodes is not injected here (single node)"],
+    },
+    "C16": {
+        "level": "exploration",
+        "tests": [{"pkg": "./chainsim", "run": "TestC16", "quick": 400, "thorough": 30000, "chunk": 25}],
+        "rule": S5_RULE + ("Oracle after every head change: (state-scope) none of the addresses the run could have touched that are outside zone 0-0's Quai ledger - the Qi-ledger conversion recipients and coinbases, and foreign-zone twins of the funded accounts - exists as an account in the state at the header's roots; "
+                 "(utxo-scope) every stored UTXO is owned by an in-zone Qi-ledger address."),
+        "expect_probes": ["reorg"],
+        "components": S5_COMPONENTS,
+        "assumptions": ["agreement of all address constructors/decoders on all 2^160 addresses is a pure-function claim and is not decided", "CREATE/CREATE2 address scoping is not yet exercised in this harness (no contract deployment op)",
+                        "membership is probed for candidate addresses (the state trie is keyed by hashes; preimages are not recorded)"],
+    },
 })
